@@ -206,16 +206,25 @@ class C03(FprCheck):
         mol0, conf0 = build(base)
         if mol0.HasProp("_Name"):
             mol.SetProp("_Name", mol0.GetProp("_Name"))
-        fpr = MG.make_fprinter(o)
-        try:
-            fpr.run(conf0, mol0)
-            fpr.run(conf, mol)
-            c = {"ok": MG.dump_run(fpr, case.get("queries", []))}
-        except Exception as e:  # noqa: BLE001
-            c = {"err": type(e).__name__}
-        if "ok" in c and vlib.canon(observable(c["ok"])) != vlib.canon(observable(b["ok"])):
-            return {"key": "renumbering-changes-fingerprint:same-fingerprinter",
-                    "what": "a fingerprinter that processed the molecule and then its renumbered copy gives the copy another fingerprint than a fresh fingerprinter"}
+        # ... in each calling form: conformer and molecule, the conformer alone (its owning molecule is looked up), conformer id
+        for form in ("conf+mol", "conf", "id+mol"):
+            fpr = MG.make_fprinter(o)
+            try:
+                if form == "conf+mol":
+                    fpr.run(conf0, mol0)
+                    fpr.run(conf, mol)
+                elif form == "conf":
+                    fpr.run(conf0)
+                    fpr.run(conf)
+                else:
+                    fpr.run(conf0.GetId(), mol0)
+                    fpr.run(conf.GetId(), mol)
+                c = {"ok": MG.dump_run(fpr, case.get("queries", []))}
+            except Exception as e:  # noqa: BLE001
+                c = {"err": type(e).__name__}
+            if "ok" in c and vlib.canon(observable(c["ok"])) != vlib.canon(observable(b["ok"])):
+                return {"key": "renumbering-changes-fingerprint:same-fingerprinter" + ("" if form == "conf+mol" else ":run(%s)" % form),
+                        "what": "a fingerprinter that processed the molecule and then its renumbered copy (run(%s)) gives the copy another fingerprint than a fresh fingerprinter" % form}
         return None
 
 
